@@ -534,6 +534,76 @@ def cases(ctx):
   return cs
 
 
+# --------------------------------------------------------------------------------------------- the tie to the source
+
+GEN_IMPORTS = ['Grist.Model.JsonImportPy', 'GristGen.JsonImport_gen', 'Grist.Model.JsonImportCode']
+CODE_CASE_DEFS = ''
+
+
+def regenerate(ctx):
+  """coq/gen/JsonImport_gen.v from the import_json.py of the tree under check (fail closed)."""
+  from harness import ij2v, ij2v_walk
+  try:
+    text = ij2v_walk.generate(os.path.join(core.GRIST, 'imports', 'import_json.py'))
+  except ij2v.Untranslatable as e:
+    raise core.TieBroken('imports/import_json.py is outside the translated subset or its pinned glue changed: %s' % e)
+  core.write_if_changed(os.path.join(core.COQ, 'gen', 'JsonImport_gen.v'), text)
+  ctx.extra['regenerated'] = ('GRIST_TYPES, Tables.__init__ (option strings), Tables._is_included, first_available_key, '
+                              '_grist_type, _dump_value, _transpose, _dump_table, _dictify, Tables.add_row; pinned by AST '
+                              'equality: dumps, Tables.dumps, Ref/Row/Col')
+
+
+def coq_cell(v):
+  from imports import import_json
+  if isinstance(v, import_json.Ref):
+    return '(CR (%s, %d%%nat))' % (core.strlit(v.table_name), v.rowid)
+  return '(CS %s)' % coq_scalar(v)
+
+
+def direct_cases(ctx):
+  """The generated first_available_key, _is_included (with the option parsing), _grist_type and _dump_value evaluated by
+  vm_compute on generated arguments against the running functions."""
+  from imports import import_json
+  rng = ctx.rng
+  n = ctx.n(150, 1500)
+  fak, inc, typ = [], [], []
+  for _ in range(n):
+    base = rng.choice(['T', 'a', '', 'T_a', 'é'])
+    keys = list(dict.fromkeys([base + s for s in rng.sample(['', '2', '3', '4', '5', '02', '1', '10', '11', 'x', '22'],
+                                                            rng.randint(0, 8))] + rng.sample(KEYS, rng.randint(0, 3))))
+    if rng.random() < 0.15:
+      keys = list(dict.fromkeys(keys + [base] + [base + str(i) for i in range(2, rng.randint(3, 14))]))
+    rng.shuffle(keys)
+    want = import_json.first_available_key({k: 1 for k in keys}, base)
+    fak.append('(%s, %s, %s)' % (core.coq_list([core.strlit(k) for k in keys]), core.strlit(base), core.strlit(want)))
+    data, name, incs, excs = gen_case(rng)
+    if rng.random() < 0.5:
+      incs, excs = gen_opts(rng, data, name)
+    path = rng.choice(paths_of(data, name) or [name]) + rng.choice(['', '', '_a', 'x'])
+    t = import_json.Tables({'includes': incs, 'excludes': excs})
+    inc.append('(%s, %s, %s, %s)' % (core.strlit(incs), core.strlit(excs), core.strlit(path),
+                                     core.boollit(t._is_included(path))))
+    v = rng.choice(SCALARS + [import_json.Ref(rng.choice(['T', 'T_a', '']), rng.randint(1, 300))] * 6)
+    typ.append('(%s, %s, %s)' % (coq_cell(v), core.strlit(import_json._grist_type(v)),
+                                 coq_dcell(import_json._dump_value(v))))
+  imports = ['Grist.Model.JsonImport'] + GEN_IMPORTS
+  bad = {
+    'first_available_key': ctx.run_cases(
+      'fak', imports, 'fun c => str_eqb (gen_first_available_key (map (fun k => (k, tt)) (fst (fst c))) (snd (fst c))) (snd c)',
+      fak, shard=2000),
+    '_is_included': ctx.run_cases(
+      'inc', imports, 'fun c => Bool.eqb (gen_is_included (gen_init_includes_opt (fst (fst (fst c)))) '
+      '(gen_init_excludes_opt (snd (fst (fst c)))) (snd (fst c))) (snd c)', inc, shard=2000),
+    '_grist_type/_dump_value': ctx.run_cases(
+      'typ', imports, 'fun c => str_eqb (gen_grist_type (fst (fst c))) (snd (fst c)) && '
+      'dcell_eqb (gen_dump_value (fst (fst c))) (snd c)', typ, shard=2000),
+  }
+  for fn, idx in bad.items():
+    if idx:
+      ctx.broken('translator:generated %s differs from the running function' % fn, 'on %d of %d arguments' % (len(idx), n))
+  return {'direct_cases_per_function': n, 'direct_disagreements': {k: len(v) for k, v in bad.items()}}
+
+
 # --------------------------------------------------------------------------------------------- protocol
 
 def correspond(ctx):
@@ -562,12 +632,35 @@ def correspond(ctx):
     ctx.bump('tables%d' % min(len(out), 6))
     if filtered:
       ctx.bump('with includes/excludes')
-  bad = ctx.run_cases('import', ['Grist.Model.JsonImport'], 'case_ok', coq, shard=ctx.n(120, 500), timeout=900)
+  # one pass evaluates both the hand model and the pipeline of generated functions on every case
+  shard = ctx.n(120, 500)
+  gen_ok = True
+  try:
+    both = ctx.run_cases('import', ['Grist.Model.JsonImport'] + GEN_IMPORTS, 'fun c => case_ok c && code_case_ok c', coq,
+                         shard=shard, timeout=900, extra_defs=CODE_CASE_DEFS)
+    bad = ctx.run_cases('model', ['Grist.Model.JsonImport'], 'case_ok', [coq[i] for i in both], shard=shard) if both else []
+    bad = [both[i] for i in bad]
+    badgen = ctx.run_cases('code', GEN_IMPORTS, 'code_case_ok', [coq[i] for i in both], shard=shard,
+                           extra_defs=CODE_CASE_DEFS) if both else []
+    badgen = [both[i] for i in badgen]
+  except core.TieBroken as e:
+    gen_ok = False
+    ctx.log('generated functions not evaluable (%s); comparing the hand model only' % str(e)[-300:].replace('\n', ' '))
+    bad = ctx.run_cases('import', ['Grist.Model.JsonImport'], 'case_ok', coq, shard=shard, timeout=900)
+    badgen = []
   for i in bad[:5]:
     data, name, incs, excs = kept[i]
     ctx.broken('correspondence:Model/JsonImport.v import_json differs from imports/import_json.py',
                'case %s' % json.dumps(witness(data, name, incs, excs)))
+  for i in badgen[:5]:
+    data, name, incs, excs = kept[i]
+    ctx.broken('translator:the functions generated by harness/ij2v.py differ from the running import_json.py',
+               'case %s' % json.dumps(witness(data, name, incs, excs)))
   ctx._c33_bad = [kept[i] for i in bad]
+  tv = {'pipeline_cases': len(coq) if gen_ok else 0, 'pipeline_disagreements': len(badgen)}
+  if gen_ok:
+    tv.update(direct_cases(ctx))
+  ctx.extra['translator_validation'] = tv
 
 
 def witness(data, name, incs, excs):
